@@ -61,7 +61,7 @@ def main():
         summaries.append(s)
     # ---- verdict
     props = spec.get('props', [pid])
-    viol_lines, known_lines, mach = [], [], []
+    viol_lines, known_lines, mach, transient = [], [], [], []
     nviol = 0
     co_observed = {}
     for s in summaries:
@@ -76,6 +76,8 @@ def main():
                 what = kf[0]['what']
                 known_lines.append('KNOWN-FINDING: property=%s %s [%s; met %d times, e.g. seed %d, replay %s]' % (pid, what, v['sig'], v['count'], v['first_seed'], v.get('replay', '-')))
                 continue
+            if v.get('gate') == 'transient':
+                transient.append(v); continue
             nviol += v['count']
             if v.get('gate') == 'ok':
                 viol_lines.append('VIOLATION property=%s replay=%s' % (pid, v['replay']))
@@ -138,6 +140,8 @@ def main():
         cov['elimination_forest_shapes_factorized'] = {'by_columns': {('n=%s' % k): v for k, v in sorted(shapes.items())},
             'note': 'distinct postordered elimination forests (as numbered by the library) that were factorized with info = 0; the number of postordered forests on n nodes is the Catalan number 1, 2, 5, 14, 42, 132, 429, 1430'}
         cov['probes']['forest_shapes_distinct'] = sum(shapes.values())
+    if transient:
+        cov['watchdog_limit_exceeded_under_load_but_completed_on_reexecution'] = sum(v['count'] for v in transient)
     zero = [p for p in spec.get('must_probe', []) if cov['probes'].get(p, 0) == 0]
     if zero:
         cov['probes_stuck_at_zero'] = zero
